@@ -1,6 +1,7 @@
 package main
 
 import (
+	"fmt"
 	"os"
 	"path/filepath"
 	"sort"
@@ -136,6 +137,35 @@ func genScan(w *out.W, tier string) {
 		rn.run("m", o, in)
 	}
 	rn.flush()
+	probeNestedBegins(w, byName)
+}
+
+// probeNestedBegins measures the scanner on k unterminated BEGINs (oracle only; the model has
+// no notion of time): every BEGIN starts a nested scanner over the rest of the input and, when
+// that fails, the outer scanner goes on to the next BEGIN, so the work doubles with each one.
+// Termination is a theorem (C08_total) but 40 BEGINs (240 bytes) would take days.
+func probeNestedBegins(w *out.W, byName map[string]optSet) {
+	for _, p := range []struct{ opts, word string }{{"sqlite", "BEGIN "}, {"generic", "BEGIN ATOMIC "}} {
+		o := byName[p.opts]
+		timeOf := func(k int) time.Duration {
+			in := strings.Repeat(p.word, k)
+			best := time.Duration(1 << 62)
+			for i := 0; i < 2; i++ {
+				if r := scanSafe(scanWith(o.o), in); r.dur < best {
+					best = r.dur
+				}
+			}
+			return best
+		}
+		t16, t20 := timeOf(16), timeOf(20)
+		id := "p-" + p.opts
+		w.ImplOnly(id, fmt.Sprintf("%q x16: %s, x20: %s", p.word, t16, t20))
+		w.Count("probe/nested-begins")
+		if t20 > 400*time.Millisecond && t20 > 6*t16 {
+			w.Violation(id, "superlinear-time", fmt.Sprintf("opts=%s: %q repeated 20 times (%d bytes) takes %s, 16 times %s (x%.1f for 4 more words): scan time doubles with every unterminated %s",
+				p.opts, p.word, 20*len(p.word), t20.Round(time.Millisecond), t16.Round(time.Millisecond), float64(t20)/float64(t16), strings.TrimSpace(p.word)))
+		}
+	}
 }
 
 func loadCorpus() []string {
